@@ -259,7 +259,8 @@ func (progBldr *ProgBuilder) Deref() {
 
 		lrefentry, err := valEntry.FollowLeafRef()
 		if err != nil {
-			ctx.execError(err.Error(), "")
+			ctx.res.runErr = err
+			return
 		}
 		ctx.actualPathStack.PushPath(lrefentry.GetSdcpbPath())
 	}
